@@ -1,4 +1,4 @@
 From Coq Require Extraction ExtrOcamlBasic.
 From PV Require Import Lib.Bytes Model.ShTok Spec.ShPartition.
 (* Z.opp only so that the type z, which oracle/common.ml mentions, is extracted too *)
-Extraction "C10sh_model.ml" sh_atoms_from sh_atoms sh_tokens table_expr partition_ok tokens_ok Z.opp.
+Extraction "C10sh_model.ml" sh_atoms_from sh_atoms sh_tokens split_tokens table_expr partition_ok tokens_ok Z.opp.
